@@ -4,17 +4,18 @@ import (
 	"github.com/free5gc/openapi/models"
 )
 
+// LadnToModels decodes the contents of a LADN indication (TS 24.501 9.11.3.29): a sequence of
+// LADN DNN values, each preceded by its length octet.
 func LadnToModels(buf []uint8) (dnnValues []string) {
-	for bufOffset := 1; bufOffset < len(buf); {
+	for bufOffset := 0; bufOffset < len(buf); {
 		lenOfDnn := int(buf[bufOffset])
-		if lenOfDnn == 0 || bufOffset+lenOfDnn > len(buf) {
-			break // malformed: would not advance, or runs past the end
+		if bufOffset+1+lenOfDnn > len(buf) {
+			break // malformed: the value runs past the end
 		}
-		dnn := string(buf[bufOffset : bufOffset+lenOfDnn])
+		dnn := string(buf[bufOffset+1 : bufOffset+1+lenOfDnn])
 		dnnValues = append(dnnValues, dnn)
-		bufOffset += lenOfDnn
+		bufOffset += 1 + lenOfDnn
 	}
-
 	return
 }
 
